@@ -248,7 +248,7 @@ SUITES = {
         repo_suite("c11-inmem-keys", "inmem", "c11", "p_C11", {"n": 10, "shards": 1}, {"n": 100, "shards": 4}, extra=["--quotekeys"]),
         repo_suite("c11-ent-keys", "ent", "c11", "p_C11", {"n": 10, "shards": 2}, {"n": 100, "shards": 8}, extra=["--quotekeys"]),
     ]},
-    "C13": {"suites": [
+    "C13": {"gen_obligations": ["src:ent-recovery-update"], "suites": [
         repo_suite("c13-ent", "ent", "c13", "(p_and p_C13 (p_and p_C01 (p_and p_C02 p_C12)))", {"n": 15, "shards": 8}, {"n": 120, "shards": 16}),
         crash_suite("c13-crash", {"n": 10, "shards": 6}, {"n": 70, "shards": 16}),
     ]},
@@ -355,7 +355,7 @@ TRUSTED_BASE = [
     "hand-written Coq model of /repo's code (coq/*.v); tied to the code by differential execution of generated histories (tools/check, harness/), bounded and sampled",
     "Go harness: generators, virtual clock, projection of errors (library's own classifiers) and times, Coq term printer (harness/internal/cq)",
     "verif-tagged add-only hooks in /repo (clock / id generator injection, probes)",
-    "tools/go2coq (C10, C04 only): syntactic extraction of lock statements / guarded-UPDATE call chains from the Go source; that holding sync.Mutex for a whole call, resp. one guarded SQL statement, is atomic",
+    "tools/go2coq (C10, C04, C13 only): syntactic extraction of lock statements / guarded-UPDATE call chains from the Go source; that holding sync.Mutex for a whole call, resp. one guarded SQL statement, is atomic",
 ]
 
 ASSUMPTIONS = [
